@@ -26,8 +26,10 @@ type progNode struct {
 	Children []progNode `json:"children,omitempty"` // group body
 	Methods  []string   `json:"methods,omitempty"`  // combo: verbs in call order (repeats allowed); routes: method names as spelled
 	PerM     []int      `json:"per_method,omitempty"`
-	Spelling string     `json:"spelling,omitempty"` // routes: comma | multi
-	On       bool       `json:"on,omitempty"`       // autohead
+	PerG     []string   `json:"per_method_group,omitempty"` // combo: the k-th verb is declared inside Group(PerG[k]) (""=same scope); the Combo value itself was created outside
+	Share    int        `json:"share_prefix,omitempty"`     // verb: >0 = pass the first Share handlers of the previous verb route's slice (same backing array, same handlers) instead of fresh ones
+	Spelling string     `json:"spelling,omitempty"`         // routes: comma | multi
+	On       bool       `json:"on,omitempty"`               // autohead
 }
 
 type progCase struct {
@@ -61,9 +63,12 @@ func genProgBody(rng *rand.Rand, depth int) []progNode {
 	for i := 0; i < n; i++ {
 		switch k := rng.Intn(20); {
 		case k < 7:
-			out = append(out, progNode{Op: "verb", Path: c11Paths[rng.Intn(len(c11Paths))], Method: routerMethods[rng.Intn(len(routerMethods))], NH: 1 + rng.Intn(2), Spare: rng.Intn(2) * 3})
+			out = append(out, progNode{Op: "verb", Path: c11Paths[rng.Intn(len(c11Paths))], Method: routerMethods[rng.Intn(len(routerMethods))], NH: 1 + rng.Intn(3), Spare: rng.Intn(2) * 3})
 			if rng.Intn(2) == 0 {
 				out[len(out)-1].Method = "GET"
+			}
+			if rng.Intn(6) == 0 {
+				out[len(out)-1].Share = 1 + rng.Intn(3) // a prefix of the slice the previous route was given
 			}
 		case k < 11 && depth < 4, k < 11 && depth < 8 && rng.Intn(3) == 0:
 			nh := rng.Intn(3)
@@ -77,6 +82,11 @@ func genProgBody(rng *rand.Rand, depth int) []progNode {
 			for j := 0; j < nm; j++ {
 				pn.Methods = append(pn.Methods, []string{"GET", "POST", "DELETE", "PUT", "HEAD", "PATCH", "OPTIONS", "CONNECT", "TRACE"}[rng.Intn(9)])
 				pn.PerM = append(pn.PerM, rng.Intn(3))
+				g := ""
+				if rng.Intn(5) == 0 {
+					g = []string{"/cg", "/g1", ""}[rng.Intn(3)]
+				}
+				pn.PerG = append(pn.PerG, g)
 			}
 			out = append(out, pn)
 		case k < 16:
@@ -113,6 +123,7 @@ type flatReg struct {
 }
 
 type flattener struct {
+	lastIDs  []int
 	gpath    []string
 	ghs      [][]int
 	auto     bool
@@ -146,7 +157,17 @@ func (fl *flattener) body(nodes []progNode) {
 		step := fl.step
 		switch n.Op {
 		case "verb":
-			ids := fl.ids(n.NH)
+			var ids []int
+			if n.Share > 0 && len(fl.lastIDs) > 0 {
+				k := n.Share
+				if k > len(fl.lastIDs) {
+					k = len(fl.lastIDs)
+				}
+				ids = fl.lastIDs[:k]
+			} else {
+				ids = fl.ids(n.NH)
+				fl.lastIDs = ids
+			}
 			fl.add(step, n.Method, n.Path, ids)
 			if n.Method == "GET" && fl.auto {
 				fl.add(step, "HEAD", n.Path, ids)
@@ -170,10 +191,19 @@ func (fl *flattener) body(nodes []progNode) {
 				}
 				used[m] = true
 				all := append(append([]int{}, cids...), ids...)
+				g := ""
+				if j < len(n.PerG) {
+					g = n.PerG[j]
+				}
+				// the verb is declared inside Group(g): the route gets the group prefix of the scope the call is made in
+				fl.gpath = append(fl.gpath, g)
+				fl.ghs = append(fl.ghs, nil)
 				fl.add(fl.step, m, n.Path, all)
 				if m == "GET" && fl.auto {
 					fl.add(fl.step, "HEAD", n.Path, all)
 				}
+				fl.gpath = fl.gpath[:len(fl.gpath)-1]
+				fl.ghs = fl.ghs[:len(fl.ghs)-1]
 			}
 		case "routes":
 			ids := fl.ids(n.NH)
@@ -194,6 +224,7 @@ func (fl *flattener) body(nodes []progNode) {
 // ---- executing the program on the real router ----------------------------------------
 
 type progExec struct {
+	lastHS  []flamego.Handler
 	f       *flamego.Flame
 	tr      *[]string
 	params  *map[string]string
@@ -240,7 +271,17 @@ func (x *progExec) body(nodes []progNode) {
 		step := x.step
 		switch n.Op {
 		case "verb":
-			hs := x.hs(n.NH, n.Spare)
+			var hs []flamego.Handler
+			if n.Share > 0 && len(x.lastHS) > 0 {
+				k := n.Share
+				if k > len(x.lastHS) {
+					k = len(x.lastHS)
+				}
+				hs = x.lastHS[:k] // same backing array, same handler values as the previous route
+			} else {
+				hs = x.hs(n.NH, n.Spare)
+				x.lastHS = hs
+			}
 			x.guarded(step, func() {
 				switch n.Method {
 				case "GET":
@@ -277,7 +318,14 @@ func (x *progExec) body(nodes []progNode) {
 				if cb == nil {
 					continue
 				}
-				x.guarded(x.step, func() {
+				call := x.guarded
+				if j < len(n.PerG) && n.PerG[j] != "" {
+					g := n.PerG[j]
+					call = func(step int, fn func()) {
+						f.Group(g, func() { x.guarded(step, fn) })
+					}
+				}
+				call(x.step, func() {
 					switch m {
 					case "GET":
 						cb.Get(hs...)
